@@ -1,8 +1,8 @@
 (* Props/C04.v — property C04: Invoke, Stream, Collect and Transform of a compiled graph
    agree.  Only statements, each closed by [exact]; the proofs are in Proofs/Paradigm*.v. *)
 From Eino Require Import Base.Util Model.Paradigm Model.StreamOps Model.ParadigmProg
-  Model.ParadigmSpec Model.ParadigmHandlers Proofs.Paradigm Proofs.ParadigmOps Proofs.ParadigmFieldMap
-  Proofs.ParadigmProg Proofs.ParadigmSpec Proofs.ParadigmPaths.
+  Model.ParadigmSpec Model.ParadigmHandlers Model.C04NilEnd Proofs.Paradigm Proofs.ParadigmOps Proofs.ParadigmFieldMap
+  Proofs.ParadigmProg Proofs.ParadigmSpec Proofs.ParadigmPaths Proofs.C04NilEnd.
 
 (* ------------------------------------------------------------------ node level *)
 
@@ -447,3 +447,20 @@ Example agree_nonvacuous_paths :
   /\ vsconcatR (g_transform seq_mrg (compile_sprog paths_prog) (map Val [VS "a"%string; VS "b"%string]))
      = g_invoke (compile_sprog paths_prog) (VS "ab"%string).
 Proof. exact paths_prog_in_domain. Qed.
+
+(* Finding F-C04e (fixed by ff3e750): before the fix a nil value reaching END of a graph with an
+   interface-typed output made Invoke fail ("no tasks to execute": the run loop took the nil result
+   for "END not reached") while Stream / Collect / Transform delivered the nil. *)
+Theorem nil_output_v0_refuted :
+  finish_v0 true ONil = Err e_notasks
+  /\ sconcatR oconcat (finish_stream true [Val ONil]) = Ok ONil
+  /\ sconcatR oconcat (finish_stream true [Val ONil; Val ONil]) = Ok ONil.
+Proof. exact nil_end_v0. Qed.
+Print Assumptions nil_output_v0_refuted.
+
+(* as repaired: for every value that reaches END, nil included, the value-mode ending returns what
+   the stream-mode ending delivers, concatenated *)
+Theorem nil_output_agrees :
+  forall r, finish true r = sconcatR oconcat (finish_stream true (box r)).
+Proof. exact nil_end_fixed. Qed.
+Print Assumptions nil_output_agrees.
